@@ -3,7 +3,9 @@
 independent confirmation (/tmp/confirm/results/<id>.json, tools/confirm_mutant.sh) succeeded. caught_by is filled by
 tools/mutant_matrix.sh (results in /tmp/confirm/matrix/<id>.<PROP>.rc)."""
 import glob, json, os, re, shutil
-INCS = [("/verif/seeded/_incoming", "", 1), ("/verif/seeded/_incoming2", "b", 2), ("/verif/seeded/_incoming3", "c", 3), ("/verif/seeded/_incoming4", "d", 4), ("/verif/seeded/_incoming5", "e", 5)]
+ALL_INCS = [("/verif/seeded/_incoming", "", 1), ("/verif/seeded/_incoming2", "b", 2), ("/verif/seeded/_incoming3", "c", 3), ("/verif/seeded/_incoming4", "d", 4), ("/verif/seeded/_incoming5", "e", 5), ("/verif/seeded/_incoming6", "f", 6), ("/verif/seeded/_incoming7", "g", 7)]
+# only the rounds named in ROUNDS (default: the latest) are (re)built: the confirmation results of earlier rounds lived in /tmp
+INCS = [x for x in ALL_INCS if str(x[2]) in os.environ.get("ROUNDS", "6").split(",")]
 NEEDS = {
 "C01-1": "callable terminal currents that go from non-zero to exactly zero on every terminal (switched-off pulse; or thermalisation with a ramp starting at 0)",
 "C01-2": "sequence on ONE Device object: make_mesh, terminal_info()/solve, make_mesh with other boundary vertices, solve with non-zero currents",
@@ -140,7 +142,15 @@ for d, tag, rnd in [(d, tag, rnd) for (inc, tag, rnd) in INCS for d in sorted(gl
         rows.append((mid, prop, meta["title"][:90].replace("|", "\\|"), caught, mid in MISSED_FIRST))
 subprocess.run(["git", "-C", "/repo", "worktree", "remove", "--force", WT], capture_output=True)
 print(len(rows), "kept")
+rows = []
+def _key(mid):
+    prop, tag = mid.split("-")
+    return (prop, "" if tag[0].isdigit() else tag[0], tag)
+for mf in sorted(glob.glob("/verif/seeded/C*/meta.json"), key=lambda f: _key(os.path.basename(os.path.dirname(f)))):
+    m = json.load(open(mf))
+    rows.append((m["id"], m["property"], m["title"][:90].replace("|", "\\|"), m.get("caught_by_quick_checks", []), m.get("missed_by_first_version_of_the_check")))
 tab = ["| id | property | change | caught by (quick) | first missed -> check strengthened |", "|---|---|---|---|---|"]
 for mid, prop, title, caught, mf in rows:
     tab.append(f"| {mid} | {prop} | {title} | {', '.join(caught) or '?'} | {'yes' if mf else ''} |")
 open("/tmp/confirm/table.md", "w").write("\n".join(tab) + "\n")
+print(len(rows), "rows in table")
